@@ -157,7 +157,7 @@ Definition avz_scale (times : list R) (emE hadE emf hadf dist psi n : R) : R :=
   let dt := second_time times - first_time times in
   (2 / IZR N) *
   rsum (fun k' => Rabs (AVZ_tmp emE hadE emf hadf dist (Rabs psi) (acos (1 / n)) (rfftfreq N dt (Z.of_nat (S k')))))
-       (Z.to_nat ((N - 1) / 2)) / Rabs dt.
+       (Z.to_nat (N / 2)) / Rabs dt.     (* includes the Nyquist bin, whose real part is cos(pi/2) ~ 6e-17 in binary64 *)
 Definition shower_scale (profile rac : R -> R -> R) (times : list R) (energy theta dist n t0 : R) : R :=
   let L := ZL times in
   let t_0 := first_time times in
